@@ -130,6 +130,10 @@ def mux_shapes():
                               N("M", "PMux", ["S1", "D"], rs_list=True), N("L", "ILoad", "M"))
     c["mux-deep-input-b"] = S(N("S2", "Source"), N("C", "Converter", "S2"), N("D", "RLoss", "C"), N("S1", "Source", pol="nonneg"),
                               N("M", "PMux", ["D", "S1"], rs_list=True), N("L", "PLoad", "M"), N("L1", "ILoad", "S1"))
+    # negative rails: "live" means non-zero, not positive (selection, domain attribution and current routing must agree on that)
+    c["mux2-neg"] = S(N("S1", "Source", pol="nonpos"), N("S2", "Source", pol="neg"), N("M", "PMux", ["S1", "S2"], rs_list=True), N("L", "ILoad", "M"))
+    c["mux2-neg-linreg"] = S(N("S1", "Source", pol="nonpos", only=()), N("S2", "Source", pol="neg", only=()), N("M", "PMux", ["S1", "S2"], only=("rs",)),
+                             N("G", "LinReg", "M", pol="neg", only=()), N("L", "RLoad", "G", only=()))
     c["mux-shared-src-load"] = S(N("S1", "Source", pol="nonneg"), N("S2", "Source"), N("L1", "ILoad", "S1"),
                                  N("M", "PMux", ["S1", "S2"], rs_list=True), N("G", "LinReg", "M"), N("L", "RLoad", "G"))
     return c
@@ -151,7 +155,7 @@ def multi_source_shapes():
     c["fan-two-sources"] = S(N("S1", "Source"), N("S2", "Source"), N("A1", "PSwitch", "S1"), N("A2", "PSwitch", "S2"),
                              N("L1", "PLoad", "A1"), N("L2", "PLoad", "A2"), N("L3", "ILoad", "S1"), N("L4", "ILoad", "S2"))
     for k, v in mux_shapes().items():
-        if k in ("mux2", "mux-below-regs", "mux-shared-src-load", "mux-lowprio-sibling", "mux-deep-input-a", "mux-deep-input-b"):
+        if k in ("mux2", "mux2-neg", "mux-below-regs", "mux-shared-src-load", "mux-lowprio-sibling", "mux-deep-input-a", "mux-deep-input-b"):
             c[k] = v
     return c
 
